@@ -352,9 +352,8 @@ impl<T: SerializableType> SmartPtrSerialize<T> for RcWeak<T> {
         let marker = input.read_u8()?;
         match marker {
             0 => {
-                // Dangling weak reference - create a weak that will never upgrade
-                let dummy = Rc::new(T::deserialize(input)?);
-                Ok(Rc::downgrade(&dummy))
+                // Dangling weak reference - nothing else was written for it
+                Ok(RcWeak::new())
             }
             1 => {
                 // Valid weak reference
@@ -393,9 +392,8 @@ impl<T: SerializableType + Send + Sync> SmartPtrSerialize<T> for ArcWeak<T> {
         let marker = input.read_u8()?;
         match marker {
             0 => {
-                // Dangling weak reference - create a weak that will never upgrade
-                let dummy = Arc::new(T::deserialize(input)?);
-                Ok(Arc::downgrade(&dummy))
+                // Dangling weak reference - nothing else was written for it
+                Ok(ArcWeak::new())
             }
             1 => {
                 // Valid weak reference
